@@ -11,23 +11,41 @@ open SF SF.TB
 
 variable {α : Type}
 
+/-- a small concrete TypeBlocks (1-D block + 2-D block of width 2) used for non-vacuity examples -/
+def tbEx : TB Nat := ⟨2, [.d1 "i" [1, 2], .d2 "f" [[3, 4], [5, 6]]]⟩
+
+theorem tbEx_wf : tbEx.WF := by
+  simp [tbEx, TB.WF, Block.RowsOk, Block.colsOf, Block.width]
+
 /-- Structural coherence: the directory, the dtype list and the data agree on the shape. -/
 theorem cols_wf (tb : TB α) (h : tb.WF) :
     tb.cols.length = tb.ncols ∧ (∀ c ∈ tb.cols, c.length = tb.rows) ∧
     tb.dtypes.length = tb.ncols ∧ tb.index.length = tb.ncols := by
-  sorry
+  refine ⟨cols_length tb, ?_, dtypes_length tb, index_length tb⟩
+  intro c hc
+  simp only [cols, List.mem_flatMap] at hc
+  obtain ⟨b, hb, hcb⟩ := hc
+  exact h.2 b hb c hcb
+
+example : tbEx.WF := tbEx_wf
 
 /-- `from_blocks` yields a well-formed TypeBlocks whose columns are those of the non-empty blocks. -/
 theorem fromBlocks_sound (bs : List (Block α)) (ref : Option Nat) (tb : TB α)
     (h : TB.fromBlocks bs ref = .ok tb) :
-    tb.WF ∧ tb.cols = bs.flatMap Block.colsOf ∧ tb.dtypes = bs.flatMap (fun b => List.replicate b.width b.dt) := by
-  sorry
+    tb.WF ∧ tb.cols = bs.flatMap Block.colsOf ∧ tb.dtypes = bs.flatMap (fun b => List.replicate b.width b.dt) :=
+  TB.fromBlocks_spec bs ref tb h
+
+example : TB.fromBlocks tbEx.blocks none = .ok tbEx := by decide
 
 /-- The directory is exact: entry `j` names the block and the column inside it that hold column `j`. -/
 theorem index_spec (tb : TB α) (j : Nat) (hj : j < tb.index.length) :
     ∃ blk, tb.blocks[(tb.index[j]).1]? = some blk ∧
       blk.colsOf[(tb.index[j]).2]? = tb.cols[j]? ∧ tb.dtypes[j]? = some blk.dt := by
-  sorry
+  obtain ⟨blk, _, h2, _, h4, h5⟩ :=
+    indexFrom_spec (α := α) 0 tb.blocks j (tb.index[j]).1 (tb.index[j]).2 (by show tb.index[j]? = _; rw [List.getElem?_eq_getElem hj])
+  exact ⟨blk, h2, h4, h5⟩
+
+example : (1 : Nat) < tbEx.index.length := by decide
 
 /-- expansion of per-block selections back to `(block, column)` pairs -/
 def expand (tb : TB α) (ps : List (Nat × BSel)) : Except Err (List (Nat × Nat)) :=
@@ -36,6 +54,26 @@ def expand (tb : TB α) (ps : List (Nat × BSel)) : Except Err (List (Nat × Nat
     | none => Except.error Err.lookup
     | some b => (p.2.positions b.width).map fun cs => cs.map fun c => (p.1, c)).map List.flatten
 
+theorem expand_segs (tb : TB α) (segs : List Seg)
+    (h : ∀ s ∈ segs, s.Good ∧ ∀ c ∈ s.run, (s.blk, c) ∈ tb.index) :
+    expand tb (segs.map Seg.pair) = .ok (segs.flatMap Seg.cells) := by
+  unfold expand
+  rw [mapM_map_except_ok (g := Seg.cells)]
+  · simp [Except.map, List.flatMap]
+  · intro s hsm
+    obtain ⟨⟨hm, hs⟩, hidx⟩ := h s hsm
+    obtain ⟨c0, hc0⟩ := List.exists_mem_of_ne_nil _ hm.ne_nil
+    obtain ⟨blk, hblk, _⟩ := mem_index (hidx c0 hc0)
+    have hw : ∀ c ∈ s.run, c < blk.width := by
+      intro c hc
+      obtain ⟨blk', hblk', hlt⟩ := mem_index (hidx c hc)
+      simp only at hblk' hlt hblk
+      rw [hblk] at hblk'; cases hblk'; exact hlt
+    have hpos := monoRun_positions hm hw hs
+    simp only at hblk
+    simp only [Seg.pair, hblk, BSel.positions, hpos]
+    rfl
+
 /-- `_indices_to_contiguous_pairs` loses nothing and reorders nothing: expanding the `(block, slice)`
     pairs gives back the `(block, column)` list, for any duplicate-free selection from the directory.
     (With a repeated column the ±1 run may change direction and `_cols_to_slice` returns a wrong
@@ -43,18 +81,40 @@ def expand (tb : TB α) (ps : List (Nat × BSel)) : Except Err (List (Nat × Nat
 theorem contiguous_pairs_expand (tb : TB α) (l : List (Nat × Nat)) (ps : List (Nat × BSel))
     (hl : ∀ p ∈ l, p ∈ tb.index) (hnd : l.Nodup) (h : contiguousPairs l none [] = some ps) :
     expand tb ps = .ok l := by
-  sorry
+  obtain ⟨segs, rfl, hflat, hgood, _⟩ := contiguousPairs_struct l [] ps h hnd
+  rw [expand_segs tb segs, hflat]
+  intro s hs
+  refine ⟨hgood s hs, fun c hc => hl _ ?_⟩
+  rw [← hflat, List.mem_flatMap]
+  exact ⟨s, hs, List.mem_map.mpr ⟨c, hc, rfl⟩⟩
+
+example : contiguousPairs [(1, 1), (1, 0), (0, 0)] none [] =
+      some [(1, .sl ⟨some 1, none, some (-1)⟩), (0, .sl ⟨some 0, some 1, none⟩)] ∧
+    expand tbEx [(1, .sl ⟨some 1, none, some (-1)⟩), (0, .sl ⟨some 0, some 1, none⟩)]
+      = .ok [(1, 1), (1, 0), (0, 0)] := by decide
 
 theorem contiguous_pairs_total (l : List (Nat × Nat)) : ∃ ps, contiguousPairs l none [] = some ps := by
-  sorry
+  cases l with
+  | nil => exact ⟨[], rfl⟩
+  | cons p rest =>
+    obtain ⟨b, c⟩ := p
+    simp only [contiguousPairs]
+    exact contiguousPairs_total_some rest b c [c] (by simp)
 
-/-- Selection refines list selection (every key kind; duplicate-free column positions). -/
+/-- Selection refines list selection (every key kind; duplicate-free column positions).
+    (Statement strengthened after the F28 repair of `_extract`: the row count of the result is
+    always the number of selected rows.) -/
 theorem extract_refines (tb : TB α) (h : tb.WF) (rk ck : Key) (rps cps : List Nat)
     (hck : ck.positions tb.ncols = .ok cps) (hnd : cps.Nodup) (hrk : rk.positions tb.rows = .ok rps) :
     ∃ r, tb.extract rk ck = .ok r ∧
       r.cols = cps.map (fun j => pick (tb.cols.getD j []) rps) ∧
-      r.dtypes = cps.map (fun j => tb.dtypes.getD j "") := by
-  sorry
+      r.dtypes = cps.map (fun j => tb.dtypes.getD j "") ∧ r.rows = rps.length :=
+  tb.extract_spec h rk ck rps cps hck hnd hrk
+
+example : (Key.slice ⟨none, none, some (-1)⟩).positions tbEx.ncols = .ok [2, 1, 0] ∧
+    (Key.list [-1]).positions tbEx.rows = .ok [1] ∧
+    (tbEx.extract (.list [-1]) (.slice ⟨none, none, some (-1)⟩)).map TB.cols = .ok [[6], [4], [2]] := by
+  decide
 
 /-- THE PROPERTY (for selection): two layouts of the same logical frame give the same answer. -/
 theorem layout_unobservable_extract (a b : TB α) (ha : a.WF) (hb : b.WF)
@@ -63,21 +123,116 @@ theorem layout_unobservable_extract (a b : TB α) (ha : a.WF) (hb : b.WF)
     (hck : ck.positions a.ncols = .ok cps) (hnd : cps.Nodup) (hrk : rk.positions a.rows = .ok rps) :
     ∃ ra rb, a.extract rk ck = .ok ra ∧ b.extract rk ck = .ok rb ∧
       ra.cols = rb.cols ∧ ra.dtypes = rb.dtypes := by
-  sorry
+  have hn : a.ncols = b.ncols := by rw [← cols_length, ← cols_length, hc]
+  obtain ⟨ra, h1, h2, h3, _⟩ := extract_refines a ha rk ck rps cps hck hnd hrk
+  obtain ⟨rb, h1', h2', h3', _⟩ := extract_refines b hb rk ck rps cps (hn ▸ hck) hnd (hr ▸ hrk)
+  exact ⟨ra, rb, h1, h1', by rw [h2, h2', hc], by rw [h3, h3', hd]⟩
+
+/-- the same frame as `tbEx` in one consolidated-by-hand layout of three 1-D blocks -/
+def tbEx' : TB Nat := ⟨2, [.d1 "i" [1, 2], .d1 "f" [3, 4], .d1 "f" [5, 6]]⟩
+
+example : tbEx'.WF ∧ tbEx.cols = tbEx'.cols ∧ tbEx.dtypes = tbEx'.dtypes ∧ tbEx.rows = tbEx'.rows :=
+  ⟨by simp [tbEx', TB.WF, Block.RowsOk, Block.colsOf, Block.width], by decide, by decide, rfl⟩
 
 /-- consolidation changes the layout only -/
 theorem consolidate_cols (bs : List (Block α)) :
     (TB.consolidate bs).flatMap Block.colsOf = bs.flatMap Block.colsOf ∧
     (TB.consolidate bs).flatMap (fun b => List.replicate b.width b.dt) = bs.flatMap (fun b => List.replicate b.width b.dt) := by
-  sorry
+  induction bs with
+  | nil => simp [consolidate]
+  | cons b rest ih =>
+    simp only [consolidate]
+    split
+    · rename_i hnil
+      rw [hnil] at ih
+      simp only [List.flatMap_nil] at ih
+      simp [← ih.1, ← ih.2]
+    · rename_i r rs hcons
+      rw [hcons] at ih
+      simp only [List.flatMap_cons] at ih
+      split
+      · rename_i hdt
+        refine ⟨?_, ?_⟩
+        · rw [List.flatMap_cons, List.flatMap_cons, ← ih.1]
+          simp [Block.colsOf]
+        · rw [List.flatMap_cons, List.flatMap_cons, ← ih.2]
+          show List.replicate (b.colsOf ++ r.colsOf).length b.dt ++ _ = _
+          rw [List.length_append, Block.colsOf_length, Block.colsOf_length, ← List.append_assoc, ← hdt,
+            List.replicate_append_replicate]
+      · simp only [List.flatMap_cons, ← ih.1, ← ih.2]
+        simp
+
+example : TB.consolidate [Block.d1 "i" [1, 2], .d1 "i" [3, 4]] = [.d2 "i" [[1, 2], [3, 4]]] := by decide
 
 /-- append / extend only add columns on the right, or fail leaving nothing changed (pure function). -/
 theorem append_cols (tb : TB α) (b : Block α) (r : TB α) (h : tb.append b = .ok r) (hw : tb.WF) :
     r.cols = tb.cols ++ b.colsOf ∧ r.rows = tb.rows ∧ r.WF := by
-  sorry
+  unfold append at h
+  split at h
+  · rename_i t c
+    split at h
+    · cases h
+    · rename_i hlen
+      have hlen' : c.length = tb.rows := by simpa using hlen
+      simp only [Except.ok.injEq] at h; subst h
+      refine ⟨by simp [cols], rfl, ?_, ?_⟩
+      · intro x hx
+        simp only [List.mem_append, List.mem_singleton] at hx
+        rcases hx with hx | rfl
+        · exact hw.1 x hx
+        · simp [Block.width]
+      · intro x hx
+        simp only [List.mem_append, List.mem_singleton] at hx
+        rcases hx with hx | rfl
+        · exact hw.2 x hx
+        · intro y hy; simp [Block.colsOf] at hy; subst hy; exact hlen'
+  · simp only [Except.ok.injEq] at h; subst h
+    exact ⟨by simp [Block.colsOf], rfl, hw⟩
+  · rename_i t c cs
+    split at h
+    · cases h
+    · rename_i hcond
+      simp only [not_or, Decidable.not_not] at hcond
+      obtain ⟨hlen, hall⟩ := hcond
+      simp only [Except.ok.injEq] at h; subst h
+      refine ⟨by simp [cols], rfl, ?_, ?_⟩
+      · intro x hx
+        simp only [List.mem_append, List.mem_singleton] at hx
+        rcases hx with hx | rfl
+        · exact hw.1 x hx
+        · simp [Block.width]
+      · intro x hx
+        simp only [List.mem_append, List.mem_singleton] at hx
+        rcases hx with hx | rfl
+        · exact hw.2 x hx
+        · intro y hy
+          simp only [Block.colsOf, List.mem_cons] at hy
+          rcases hy with rfl | hy
+          · exact hlen
+          · rw [hall y hy]; exact hlen
+
+example : ∃ r, tbEx.append (.d1 "b" [7, 8]) = .ok r := ⟨_, rfl⟩
 
 theorem extend_cols (tb o r : TB α) (h : tb.extend o = .ok r) (hw : tb.WF) (ho : o.WF) :
     r.cols = tb.cols ++ o.cols ∧ r.rows = tb.rows ∧ r.WF := by
-  sorry
+  unfold extend at h
+  split at h
+  · cases h
+  · rename_i hrows
+    have hrows' : o.rows = tb.rows := by simpa using hrows
+    simp only [Except.ok.injEq] at h; subst h
+    refine ⟨by simp [cols], rfl, ?_, ?_⟩
+    · intro x hx
+      simp only [List.mem_append] at hx
+      rcases hx with hx | hx
+      · exact hw.1 x hx
+      · exact ho.1 x hx
+    · intro x hx
+      simp only [List.mem_append] at hx
+      rcases hx with hx | hx
+      · exact hw.2 x hx
+      · have := ho.2 x hx; rw [hrows'] at this; exact this
+
+example : ∃ r, tbEx.extend tbEx = .ok r := ⟨_, rfl⟩
 
 end SF.C03
